@@ -446,3 +446,15 @@ def table_program(arg: dict) -> dict:
     o = assemble({"src": src, "files": files})
     end = dict((n, v) for n, v in o["labels"]).get("endlabel", -1)
     return {"ok": o["ok"], "bytes": [b for _, blk in o["calls"] for b in blk], "endlabel": end, "err": o["err"], "src": src}
+
+
+# ------------------------------------------------------------------------------------------
+# abstract programs (C02, C03, C05, C07, C08, C09, C10)
+# ------------------------------------------------------------------------------------------
+def asm_prog(arg: dict) -> dict:
+    """Render an APR program, assemble it, return the observable result."""
+    from harness import apr
+    src, files = apr.render(arg["prog"])
+    o = assemble({"src": src, "files": files, "rom": arg["prog"].get("rom", "low"),
+                  "defines": {d["n"]: d["v"] for d in arg["prog"].get("defines", [])}})
+    return {"ok": o["ok"], "calls": o["calls"], "labels": sorted(o["labels"]), "err": o["err"], "exc": o["exc"], "src": src}
